@@ -308,6 +308,10 @@ int ares_init_options(ares_channel_t           **channelptr,
     goto done;
   }
 
+  /* Set the default socket functions before any configuration is read, they
+   * are needed to resolve the interface of link-local servers */
+  ares_set_socket_functions_def(channel);
+
   /* Initialize configuration by each of the four sources, from highest
    * precedence to lowest.
    */
@@ -348,8 +352,6 @@ int ares_init_options(ares_channel_t           **channelptr,
                    ares_strerror(status)));
     goto done;
   }
-
-  ares_set_socket_functions_def(channel);
 
   /* Initialize the event thread */
   if (channel->optmask & ARES_OPT_EVENT_THREAD) {
